@@ -100,7 +100,7 @@ func init() { register("c10.ill", evalC10) }
 
 func TestC10(t *testing.T) {
 	h := newHarness(t, "C10", "the complete table of ill-formed shapes over the positional schema of every command with required arguments: each required position (and what follows) omitted, "+
-		"a null bulk at each position, each numeric position replaced by abc / 1.5 / empty / 20-digit tokens (floats: abc, empty, 1.5.2, --1; bounds: abc, empty, '(', '(abc'), non-positive expiries, "+
+		"a null bulk at each position, each numeric position replaced by abc / 1.5 / empty / 20-digit / 2^63 / 19-digit-overflowing / -2^63-1 tokens (floats: abc, empty, 1.5.2, --1; bounds: abc, empty, '(', '(abc'), non-positive expiries, "+
 		"pair lists with a dangling half, SET with combined/repeated NX|XX and EX|PX|EXAT|PXAT; each followed by a probe GET; plus random letter case and random corruption positions in longer vectors. "+
 		"Oracle: reply 1 is an error, no handler call is attributed to request 1, the probe is answered normally. Every case is non-trivial; distinct = distinct request bytes.")
 	defer h.Finish()
